@@ -72,3 +72,15 @@ func init() {
 	register("C17", ruleGFArith)
 	register("C15", ruleGFArith)
 }
+
+func init() {
+	register("C03", ruleAztecEncoder)
+	register("C10", ruleAztecEncoder)
+	register("C12", ruleAztecEncoder)
+	register("C13", ruleAztecEncoder)
+	register("C11", ruleAztecEncoder)
+}
+
+func init() {
+	register("C03", ruleAztecState)
+}
